@@ -253,6 +253,33 @@ fn h_tr_marks() {
     assert!(a.meta.flags.bits() & 3 == f0.bits() & 3);
     assert!(truthful(&a));
 }
+fn ck_recompute(shape: &[usize], n: usize) {
+    let (mut a, _before, f0, _k) = mk(shape, n);
+    recompute_marks_after_load(&mut a);
+    // marks of a loaded array are recomputed from its data: set exactly when true
+    assert!(a.meta.is_sorted_up() == rows_sorted(&a, true));
+    assert!(a.meta.is_sorted_down() == rows_sorted(&a, false));
+    assert!(a.meta.flags.bits() & 3 == f0.bits() & 3);
+}
+//@ id=C17.e3.load.marks_recomputed.list3 props=C17,C05,C09 level=bounded tier=quick budget=900 bound="shape [3]" desc="deserialising an array (From<ArrayRep>) recomputes the sortedness marks from the data: each is set exactly when it is true, whatever the stored marks were"
+#[kani::proof]
+#[kani::unwind(10)]
+fn h_load_marks_list3() {
+    ck_recompute(&[3], 3);
+}
+//@ id=C17.e3.load.marks_recomputed.mat2x2 props=C17,C05,C09 level=bounded tier=quick budget=900 bound="shape [2,2]" desc="the same for a matrix (rows compared lexicographically)"
+#[kani::proof]
+#[kani::unwind(10)]
+fn h_load_marks_2x2() {
+    ck_recompute(&[2, 2], 4);
+}
+//@ id=C17.e3.load.marks_recomputed.empty props=C17,C05,C09 level=bounded tier=quick budget=600 bound="shapes [0], [1]" desc="empty and one-row arrays are marked sorted both ways"
+#[kani::proof]
+#[kani::unwind(10)]
+fn h_load_marks_small() {
+    ck_recompute(&[0], 0);
+    ck_recompute(&[1], 1);
+}
 //@ id=C05.e3.meta.mark_helpers props=C05,C09 level=complete tier=quick budget=600 desc="ArrayMeta mark helpers at the bit level: take_sorted_flags / take_value_flags return and clear exactly their group; or_sorted_flags sets only sortedness bits; mark_sorted_* set or clear exactly one bit; reset_flags clears all; an absent meta stays absent unless a bit must be set"
 #[kani::proof]
 fn h_meta_helpers() {
